@@ -34,8 +34,13 @@ _PER = {'quick': 6, 'thorough': 80}
 
 
 def plan(tier):
-    return [(f'{kind}|{fam}', _PER[tier])
-            for kind, fams in MACRO_FAMILIES.items() for fam in fams]
+    out = [(f'{kind}|{fam}', _PER[tier])
+           for kind, fams in MACRO_FAMILIES.items() for fam in fams]
+    # every body kind once more with its cells (incl. facet references)
+    # carried by a TRCL
+    out += [(f'{kind}|{fams[-1]}+trcl', _PER[tier])
+            for kind, fams in MACRO_FAMILIES.items()]
+    return out
 
 
 def facet_leaves(kind, params):
@@ -54,11 +59,25 @@ def facet_leaves(kind, params):
 
 def build(case):
     kind, fam = case.family.split('|')
+    with_trcl = fam.endswith('+trcl')
+    fam = fam.replace('+trcl', '')
     params = macrobody(case.rng, kind, fam)
     sur = M.Surf(1, kind, params)
     leaves = [M.S(-1), M.S(1)] + facet_leaves(kind, params)
     deck = probe_deck([sur], leaves, title=f'C03 {kind} {fam}')
     deck.tags.update({f'kind.{kind}', f'{kind}.{fam}'})
+    deck.case_motion = None
+    if with_trcl:
+        from ..gen_surf import motion_of_class, tr_spec
+        mot = motion_of_class(case.rng, case.rng.choice(['generic', 'quarter',
+                                                         'translation']))
+        form = 'inline3' if not (mot.b - np.eye(3)).any() else \
+            case.rng.choice(['inline12', 'star'])
+        for cel in deck.cells:
+            if cel.id != 900:
+                cel.trcl = tr_spec(case.rng, mot, form)
+        deck.case_motion = mot
+        deck.tags.add('c03.trcl')
     # hint: the centre region of the body and points around it
     cen = np.array(params[0:3], dtype=float)
     deck.hints = [cen + np.array(off) for off in
@@ -71,6 +90,9 @@ def unjudged_mask(deck):
     sur = deck.surfs[0]
     if sur.kind != 'trc':
         return None
+    mot = getattr(deck, 'case_motion', None)
+    if mot is not None:
+        return lambda pts: ref.trc_beyond_apex(sur.params, mot.to_aux(pts))
     return lambda pts: ref.trc_beyond_apex(sur.params, pts)
 
 
